@@ -121,6 +121,19 @@ func (p *RawPeer) StartTLS() error {
 	return nil
 }
 
+// StartTLSServer performs the server side of a TLS handshake on the raw connection.
+func (p *RawPeer) StartTLSServer() error {
+	scfg, _ := TLSConfigs()
+	tc := tls.Server(p.Raw, scfg)
+	_ = tc.SetDeadline(time.Now().Add(10 * time.Second))
+	if err := tc.Handshake(); err != nil {
+		return err
+	}
+	_ = tc.SetDeadline(time.Time{})
+	p.tlsConn = tc
+	return nil
+}
+
 // Drain collects everything the other side has sent so far without blocking for longer than a millisecond.
 // Call it when the other side is quiescent (after synctest.Wait, or after a pause in real time).
 func (p *RawPeer) Drain() {
